@@ -17,11 +17,11 @@ import (
 // ClientStub describes one generated client method on *Configuration or *Node.
 type ClientStub struct {
 	Name         string   `json:"name"`
-	Recv         string   `json:"recv"`          // Configuration | Node
-	Entry        string   `json:"entry"`         // selector called on <recv>.RawConfiguration / <recv>.RawNode ("" if none)
+	Recv         string   `json:"recv"`              // Configuration | Node
+	Entry        string   `json:"entry"`             // selector called on <recv>.RawConfiguration / <recv>.RawNode ("" if none)
 	Entries      []string `json:"entries,omitempty"` // all such selectors when there is more than one call
-	MethodStr    string   `json:"method_str"`    // the Method: "…" literal of the call data
-	CallData     string   `json:"call_data"`     // type of the call data literal, e.g. gorums.QuorumCallData
+	MethodStr    string   `json:"method_str"`        // the Method: "…" literal of the call data
+	CallData     string   `json:"call_data"`         // type of the call data literal, e.g. gorums.QuorumCallData
 	PerNodeArgFn bool     `json:"per_node_arg_fn"`
 	ServerStream bool     `json:"server_stream"` // ServerStream: true
 	QFCall       string   `json:"qf_call"`       // c.qspec.<X> called by the quorum function ("" if none)
